@@ -24,7 +24,16 @@ func init() {
 			r := c.Rand()
 			cfg := kmodel.AllConfigs[idx%len(kmodel.AllConfigs)]
 			w := map[string]int{"create": 10, "update": 5, "patch": 5, "delete": 9, "deletewhere": 2}
-			runHistory(c, r, histOpts{Prefix: "C04", Cfg: cfg, NTx: 40, MaxOps: 3, Hostile: true, Weights: w,
+			// every third case lets the two stores share id strings (an employee and a department with the same id)
+			var setup func(e *kmodel.Engine)
+			if idx%3 == 2 {
+				setup = func(e *kmodel.Engine) {
+					e.EmpPool = append(append([]string{}, kmodel.EmpIds[:5]...), "d1", "D1", "null")
+					e.DeptPool = append(append([]string{}, kmodel.DeptIds[:4]...), "e1", "E1", "or")
+				}
+				c.Cover("id_universe", "shared-between-stores")
+			}
+			runHistory(c, r, histOpts{Prefix: "C04", Cfg: cfg, NTx: 40, MaxOps: 3, Hostile: true, Weights: w, Setup: setup,
 				AfterTx: func(e *kmodel.Engine, res *kmodel.TxResult, _, _ *dump.Dump) {
 					if !res.Committed {
 						return
